@@ -1,6 +1,7 @@
 package harness
 
 import (
+	"context"
 	"fmt"
 	"sync/atomic"
 	"time"
@@ -177,7 +178,10 @@ func drawScen(r *Run, o scenOpts) *scen {
 		if c.Kind == "deadline" && c.Deadline <= 0 {
 			pl = st.Default // the deadline has already passed: take the tokens from the delegate
 		}
-		l, ok := pl.Acquire(st.PartCtx(bg, key))
+		// bounded on the virtual clock: a blocking kind that wrongly refuses must not hang the driving goroutine
+		pctx, pcancel := context.WithTimeout(bg, 50*time.Millisecond)
+		l, ok := pl.Acquire(st.PartCtx(pctx, key))
+		pcancel()
 		if !ok || l == nil {
 			r.Fail("refused-with-room", c.Key(), "initial acquire %d of %d refused", i+1, pre)
 			return nil
